@@ -21,6 +21,8 @@ type Family struct {
 	Cases      []spec.MethodCase
 	PerService int
 	PerDesign  int
+	// CompileOnly families are generated and compiled but not linked into a driver (C01).
+	CompileOnly bool
 }
 
 // BuildFamily filters the cases through goa's own DSL evaluation, packs the accepted ones and
@@ -60,7 +62,7 @@ func BuildFamily(c *core.Ctx, f Family) (*pipe.Corpus, error) {
 		pd = 1
 	}
 	specs := spec.Pack(acc, ps, pd, f.Name)
-	corpus, err := pipe.Build(f.Name, specs, pipe.Options{Cmds: "gen,example"})
+	corpus, err := pipe.Build(f.Name, specs, pipe.Options{Cmds: "gen,example", NoDriver: f.CompileOnly})
 	if err != nil {
 		return nil, err
 	}
